@@ -40,6 +40,16 @@ fn main() {
     let mut generated = Vec::new();
     document.write_xml(&mut generated).expect("can not write xml");
 
-    let mut file = File::create(output_file).expect("can not create file");
-    file.write_all(&generated).expect("can not write file");
+    // write next to the destination and move the result into place: a failure while writing (a full
+    // disk, a quota) must not touch an existing output file either
+    let mut temporary_name = output_file.file_name().unwrap_or_default().to_os_string();
+    temporary_name.push(".zeep-tmp");
+    let temporary_file = output_file.with_file_name(temporary_name);
+    let written = File::create(&temporary_file)
+        .and_then(|mut file| file.write_all(&generated))
+        .and_then(|()| std::fs::rename(&temporary_file, &output_file));
+    if written.is_err() {
+        let _ = std::fs::remove_file(&temporary_file);
+    }
+    written.expect("can not write file");
 }
